@@ -4,6 +4,7 @@ The repository's real code is *called* (CPython executes it); symbolic proxies (
 terms through it; every bool() of a symbolic condition lands in Engine.branch, which asks the
 solver which sides are feasible under the current path condition, follows one and queues the other.
 """
+import os
 import time
 import z3
 
@@ -18,6 +19,10 @@ class UnwindExceeded(BaseException):
 
 class PathAbort(BaseException):
     """Path condition infeasible (an assume() cut it)."""
+
+
+class CaseDeadline(BaseException):
+    """The wall-clock budget of the case ran out in the middle of a path."""
 
 
 CURRENT = None
@@ -44,7 +49,7 @@ class PathResult(object):
 
 
 class Engine(object):
-    def __init__(self, max_decisions=4000, max_ticks=200000, solver_timeout_ms=60000, max_paths=2000000, z3_first_ms=8000,
+    def __init__(self, max_decisions=4000, max_ticks=200000, solver_timeout_ms=60000, max_paths=2000000, z3_first_ms=2500,
                  deadline=None):
         self.max_decisions = max_decisions
         self.max_ticks = max_ticks
@@ -75,6 +80,7 @@ class Engine(object):
             self.ticks = 0
             self.nfresh = 0
             self.uf_cache = {}
+            self.bounds = {}
             self.path_notes = []
             CURRENT = self
             try:
@@ -92,6 +98,9 @@ class Engine(object):
                         pass
                 except PathAbort:
                     out = PathResult(None, 'infeasible')
+                except CaseDeadline:
+                    self.truncated = True
+                    break
                 except RecursionError as e:
                     out = PathResult(None, 'unmodelled', None, 'RecursionError in harness: %s' % e)
             finally:
@@ -105,15 +114,33 @@ class Engine(object):
     # ------------------------------------------------------------------ solver
     def check(self, *assumptions):
         t0 = time.time()
+        if self.deadline and t0 > self.deadline:
+            raise CaseDeadline()
         self._model = None
         r = self.solver.check(*assumptions)
         self.stats['solver_calls'] += 1
         if r == z3.unknown:
             r = self._fallback(assumptions)
-        self.stats['solver_time'] += time.time() - t0
+        dt = time.time() - t0
+        self.stats['solver_time'] += dt
+        if dt > 2 and os.environ.get('VERIF_TRACE_SLOW'):
+            import sys
+            print('SLOW %.1fs %s decisions=%d assumptions=%s' % (dt, r, len(self.decisions), [str(a)[:300] for a in assumptions]), file=sys.stderr, flush=True)
+            if os.environ.get('VERIF_TRACE_SLOW') == 'dump':
+                s2 = z3.Solver(); s2.add(*self.solver.assertions()); s2.add(*assumptions)
+                open('/tmp/slow_%d.smt2' % self.stats['solver_calls'], 'w').write(s2.to_smt2())
         if r == z3.unknown:
             raise Unmodelled('solver unknown: %s' % self.solver.reason_unknown())
         return r == z3.sat
+
+    def feasible(self, z):
+        """check() for branch feasibility: a solver 'unknown' is treated as feasible -- exploring a path whose condition
+        is in fact unsatisfiable is sound (its verdicts are vacuous, its witnesses would not replay)."""
+        try:
+            return self.check(z)
+        except Unmodelled:
+            self.stats['assumed_feasible'] = self.stats.get('assumed_feasible', 0) + 1
+            return True
 
     def get_model(self):
         """Model of the last satisfiable check()."""
@@ -122,18 +149,15 @@ class Engine(object):
         return self.solver.model()
 
     def _fallback(self, assumptions):
-        """z3 answered unknown (typically non-linear integer arithmetic): ask cvc5 for the same assertions.
-        unsat is taken as is (cross-solver); for sat, cvc5's values are handed back to z3 to rebuild a model."""
-        self.stats['cvc5_calls'] = self.stats.get('cvc5_calls', 0) + 1
-        try:
-            import cvc5
-        except ImportError:
-            return z3.unknown
+        """z3 5.x answered unknown: pose the same assertions to other solvers -- the z3 4.8 binary (often much better
+        on mixed integer/real arithmetic with div/mod), then cvc5.  unsat is taken as is; for sat the reported
+        values are handed back to z3 to rebuild (and thereby re-check) a model."""
         s2 = z3.Solver()
         s2.add(*self.solver.assertions())
         s2.add(*assumptions)
         consts = {}
-        def walk(t, seen=set()):
+
+        def walk(t, seen):
             if t.get_id() in seen:
                 return
             seen.add(t.get_id())
@@ -141,58 +165,128 @@ class Engine(object):
                 consts[str(t)] = t
             for c in t.children():
                 walk(c, seen)
+        seen = set()
         for a in s2.assertions():
-            walk(a, set())
+            walk(a, seen)
         text = '(set-logic ALL)\n' + s2.to_smt2()
         names = list(consts)
         if names:
-            text = text.replace('(check-sat)', '(check-sat)\n(get-value (%s))' % ' '.join('|%s|' % n if not n.replace('_', 'a').isalnum() else n for n in names))
-        try:
-            slv = cvc5.Solver()
-            slv.setOption('tlimit-per', str(min(self.solver_timeout_ms, 60000)))
-            slv.setOption('produce-models', 'true')
-            ip = cvc5.InputParser(slv)
-            ip.setStringInput(cvc5.InputLanguage.SMT_LIB_2_6, text, 'q')
-            sm = ip.getSymbolManager()
-            outs = []
-            while True:
-                c = ip.nextCommand()
-                if c.isNull():
-                    break
-                o = c.invoke(slv, sm)
-                if o.strip():
-                    outs.append(o.strip())
-        except Exception as ex:
-            self.notes.append('cvc5 fallback failed: %s' % ex)
-            return z3.unknown
-        if not outs:
-            return z3.unknown
-        if outs[0] == 'unsat':
-            return z3.unsat
-        if outs[0] != 'sat' or len(outs) < 2 or outs[1].startswith('(error'):
-            return z3.unknown
-        # rebuild a z3 model from cvc5's values
-        try:
-            vals = z3.parse_smt2_string('(assert true)')  # noqa (ensures parser is available)
-            s3 = z3.Solver()
-            s3.set('timeout', 20000)
-            s3.add(*s2.assertions())
-            body = outs[1].strip()[1:-1]
-            for name, t in consts.items():
-                pass
-            decls = {n: t for n, t in consts.items()}
-            eqs = z3.parse_smt2_string(''.join('(assert (= %s %s))' % (k, v) for k, v in _pairs(body)), decls=decls)
-            s3.add(*eqs)
-            if s3.check() == z3.sat:
-                self._model = s3.model()
-                return z3.sat
-        except Exception as ex:
-            self.notes.append('cvc5 model import failed: %s' % ex)
+            q = lambda n: n if n.replace('_', 'a').isalnum() else '|%s|' % n
+            text = text.replace('(check-sat)', '(check-sat)\n(get-value (%s))' % ' '.join(q(n) for n in names))
+        outs_list = self._portfolio(text)
+        for outs in outs_list:
+            if not outs:
+                continue
+            if outs[0] == 'unsat':
+                return z3.unsat
+            if outs[0] != 'sat' or len(outs) < 2 or outs[1].startswith('(error'):
+                continue
+            try:
+                s3 = z3.Solver()
+                s3.set('timeout', 20000)
+                s3.add(*s2.assertions())
+                body = outs[1].strip()[1:-1]
+                eqs = z3.parse_smt2_string(''.join('(assert (= %s %s))' % (k, v) for k, v in _pairs(body)), decls=dict(consts))
+                s3.add(*eqs)
+                if s3.check() == z3.sat:
+                    self._model = s3.model()
+                    return z3.sat
+            except Exception as ex:
+                self.notes.append('model import failed: %s' % ex)
         return z3.unknown
+
+    def _portfolio(self, text):
+        """z3 4.8 binary and cvc5 binary side by side on the same SMT-LIB text; first definitive answer wins."""
+        import subprocess
+        import tempfile
+        t = max(5, min(self.solver_timeout_ms // 1000, 60))
+        self.stats['portfolio_calls'] = self.stats.get('portfolio_calls', 0) + 1
+        f = tempfile.NamedTemporaryFile('w', suffix='.smt2', delete=False)
+        f.write(text)
+        f.close()
+        procs = []
+        try:
+            if os.path.exists('/usr/bin/z3'):
+                procs.append(('z3-4.8', subprocess.Popen(['/usr/bin/z3', '-T:%d' % t, f.name], stdout=subprocess.PIPE,
+                                                         stderr=subprocess.DEVNULL, text=True)))
+            import shutil
+            cv = shutil.which('cvc5')
+            if cv:
+                procs.append(('cvc5', subprocess.Popen([cv, '--tlimit=%d' % (t * 1000), '--produce-models', f.name],
+                                                       stdout=subprocess.PIPE, stderr=subprocess.DEVNULL, text=True)))
+            results = []
+            t_end = time.time() + t + 5
+            pending = list(procs)
+            while pending and time.time() < t_end:
+                for name, p in list(pending):
+                    if p.poll() is not None:
+                        pending.remove((name, p))
+                        out = (p.stdout.read() or '').strip()
+                        first, _, rest = out.partition('\n')
+                        res = [first.strip(), rest.strip()] if rest.strip() else [first.strip()]
+                        if res[0] in ('sat', 'unsat'):
+                            self.stats['won_' + name] = self.stats.get('won_' + name, 0) + 1
+                            for _, q in pending:
+                                q.kill()
+                                q.wait()
+                            return [res]
+                        results.append(res)
+                time.sleep(0.01)
+            for _, q in pending:
+                q.kill()
+                q.wait()
+            return results
+        finally:
+            try:
+                os.unlink(f.name)
+            except OSError:
+                pass
+
+    def _run_z3_old(self, text):
+        import subprocess
+        import shutil
+        exe = '/usr/bin/z3'
+        if not os.path.exists(exe):
+            return None
+        self.stats['z3old_calls'] = self.stats.get('z3old_calls', 0) + 1
+        t = max(5, min(self.solver_timeout_ms // 1000, 30))
+        p = subprocess.run([exe, '-T:%d' % t, '-in'], input=text, capture_output=True, text=True, timeout=t + 10)
+        out = p.stdout.strip()
+        if not out:
+            return None
+        first, _, rest = out.partition('\n')
+        return [first.strip(), rest.strip()] if rest.strip() else [first.strip()]
+
+    def _run_cvc5(self, text):
+        self.stats['cvc5_calls'] = self.stats.get('cvc5_calls', 0) + 1
+        import cvc5
+        slv = cvc5.Solver()
+        slv.setOption('tlimit-per', str(min(self.solver_timeout_ms, 60000)))
+        slv.setOption('produce-models', 'true')
+        ip = cvc5.InputParser(slv)
+        ip.setStringInput(cvc5.InputLanguage.SMT_LIB_2_6, text, 'q')
+        sm = ip.getSymbolManager()
+        outs = []
+        while True:
+            c = ip.nextCommand()
+            if c.isNull():
+                break
+            o = c.invoke(slv, sm)
+            if o.strip():
+                outs.append(o.strip())
+        return outs
 
     def add(self, *zs):
         for z in zs:
             self.solver.add(z)
+
+    def bounded(self, zvar, lo, hi):
+        """assert lo <= zvar <= hi and record it for interval analysis"""
+        if lo is not None:
+            self.solver.add(zvar >= lo)
+        if hi is not None:
+            self.solver.add(zvar <= hi)
+        self.bounds[str(zvar)] = (lo, hi)
 
     def assume(self, cond):
         z = cond.z if hasattr(cond, 'z') else (z3.BoolVal(cond) if isinstance(cond, bool) else cond)
@@ -217,8 +311,8 @@ class Engine(object):
             return bool(d)
         if len(self.decisions) >= self.max_decisions:
             raise UnwindExceeded('decision bound %d' % self.max_decisions)
-        can_t = self.check(z)
-        can_f = self.check(z3.Not(z))
+        can_t = self.feasible(z)
+        can_f = self.feasible(z3.Not(z))
         if can_t and can_f:
             self.pending.append(self.decisions + [0])
             self.stats['forks'] += 1
@@ -268,6 +362,7 @@ class Engine(object):
             self.solver.add(v >= lo)
         if hi is not None:
             self.solver.add(v <= hi)
+        self.bounds[name] = (lo, hi)
         return SymInt(v)
 
     def fresh_bool(self, name):
@@ -281,6 +376,7 @@ class Engine(object):
             self.solver.add(v >= lo)
         if hi is not None:
             self.solver.add(v <= hi)
+        self.bounds[name] = (lo, hi)
         return SymFloat(r=v)
 
     def fresh_str(self, name, length, lo=0, hi=0x10FFFF, alphabet=None):
